@@ -93,6 +93,8 @@ struct Ca {
 const SERVER_KINDS: [&str; 4] = ["trusted-ca", "other-ca", "self-signed", "trusted-ca-expired"];
 /// Subject alternative names server certificates are made for.
 const SANS: [&str; 3] = ["localhost", "other.test", "127.0.0.1"];
+/// IPv6 literals as server names: the second is the first without its last group, which reads like a port number
+const V6_SANS: [&str; 2] = ["fd00::1:2", "fd00::1"];
 /// Client certificate kinds.
 const CLIENT_KINDS: [&str; 4] = ["none", "client-ca", "other-ca", "self-signed"];
 /// Roots handed to the client (`--tls-ca`); "system" = no file given.
@@ -227,6 +229,12 @@ impl Pki {
                 let id = make_ident(&d, &format!("srv-{kind}-{san}"), alg, &p, issuer);
                 servers.push(((kind.to_string(), san.to_string()), id));
             }
+        }
+        // server certificates for IPv6 literals whose last group reads like a port number (client-name pass only)
+        for san in V6_SANS {
+            let p = leaf_params(san, &format!("srv trusted-ca {san}"), ExtendedKeyUsagePurpose::ServerAuth, false);
+            let id = make_ident(&d, &format!("srv-trusted-ca-{}", san.replace(':', "_")), alg, &p, Some(&ca_trusted));
+            servers.push((("trusted-ca".to_string(), san.to_string()), id));
         }
         // a server certificate under the OS-trusted CA (os-trust-store pass only)
         let p = leaf_params("localhost", "srv os-ca localhost", ExtendedKeyUsagePurpose::ServerAuth, false);
@@ -3120,6 +3128,16 @@ fn name_domain(algs: &[&str]) -> Vec<NameCase> {
                 for skip in [false, true] {
                     v.push(NameCase { alg: alg.into(), san: san.into(), hostname: hostname.map(str::to_string), tls_server_name: sni.map(str::to_string), skip });
                 }
+            }
+        }
+    }
+    // IPv6 literals as the name to ask for (through --tls-server-name and through --hostname): exactly the certificate for
+    // that address is accepted, not the one for the address that remains when the last group is taken for a port
+    for san in ["fd00::1:2", "fd00::1", "localhost"] {
+        for name in V6_SANS {
+            for skip in [false, true] {
+                v.push(NameCase { alg: alg.into(), san: san.into(), hostname: None, tls_server_name: Some(name.to_string()), skip });
+                v.push(NameCase { alg: alg.into(), san: san.into(), hostname: Some(name.to_string()), tls_server_name: None, skip });
             }
         }
     }
